@@ -27,6 +27,14 @@ def run_check(mod, tier, seed, replay=None):
         b["ok"], b["obligations"], b["discharged"], b["axioms"] or "none", len(b["files"]), b["wall"]))
     if not b["ok"]:
         print(b["log"][-3000:])
+    chk = None
+    if b["ok"] and tier == "thorough" and not replay:
+        ok, axs, summary = lib.coqchk(mod.PROP_FILE)
+        chk = summary
+        print(summary)
+        extra_ax = [a for a in axs if a not in lib.AXIOM_ALLOW and a.split(".")[-1] not in lib.AXIOM_ALLOW]
+        if not ok or extra_ax:
+            proof_why.append("coqchk does not confirm the development: %s" % summary[:300])
     try:
         t = mod.tie(tier, seed, replay)
     except Exception as e:  # noqa: BLE001 - any harness failure is reported, never swallowed
@@ -98,7 +106,7 @@ def run_check(mod, tier, seed, replay=None):
         evaluations=t["evaluations"], distinct_nontrivial=t["distinct_nontrivial"], rule=t["rule"],
         samples=t["samples"][:8], distribution=t.get("distribution", {}),
         tie="model (vm_compute inside Coq) vs implementation rebuilt from /repo's working tree on the same cases; this half is differential testing, not proof",
-        known_findings_reproduced=sorted(known_hit), mismatches=len(t["mismatches"]),
+        known_findings_reproduced=sorted(known_hit), mismatches=len(t["mismatches"]), coqchk=chk,
     )
     cov.update(t.get("extra", {}))
     lib.write_evidence(prop, tier, seed, cov, t.get("assumptions", []), wall, nviol)
